@@ -487,7 +487,7 @@ func report(L *Loaded, id, tier string, seed int, ps *PropSpec, results []*harne
 			"solver_unsat":                  totalUnsat,
 			"solver_unknown":                totalUnk,
 			"solver_time_s":                 round3(solverT.Seconds()),
-			"solver":                        "z3 4.8.12 (one incremental process per worker)",
+			"solver":                        "z3 5.1 (z3-new -in, one incremental process per worker, push/pop per path); on unknown: one-shot z3-new, cvc5 --solve-bv-as-int=sum, z3 4.8.12",
 			"paths_with_nontrivial_assertion": nontrivPaths,
 			"assert_sites":                  sitesTotal,
 			"assert_sites_never_reached":    sitesVacuous,
